@@ -41,13 +41,22 @@ pub open spec fn resolves<T: AsRef<Keyspace>>(t: &T, k: &Keyspace) -> bool { cal
 //@end
 //@extract src/iter.rs :: Iterator for Iter :: next inherent optmap props=C01+C05
 //@contract
-    ensures final(self).iter.at == old(self).iter.at && final(self).nonce == old(self).nonce, // [C05:iterator-keeps-its-instant] [C01:guards-forwarded-one-to-one]
+    ensures final(self).iter.at == old(self).iter.at && final(self).nonce == old(self).nonce, // [C05:iterator-keeps-its-instant]
+        // every item of the underlying scan is handed out exactly once, in order, and nothing else
+        r is Some == (old(self).iter.todo@.len() > 0), // [C01:guards-forwarded-one-to-one]
+        r matches Some(g) ==> g.0.id@ == old(self).iter.todo@[0] && final(self).iter.todo@ == old(self).iter.todo@.skip(1), // [C01:guards-forwarded-one-to-one]
+        r is None ==> final(self).iter.todo == old(self).iter.todo,
 //@end
 //@extract src/iter.rs :: DoubleEndedIterator for Iter :: next_back inherent optmap assoc=Item:crate::Guard props=C01+C05
 //@contract
     ensures final(self).iter.at == old(self).iter.at && final(self).nonce == old(self).nonce, // [C05:iterator-keeps-its-instant]
+        r is Some == (old(self).iter.todo@.len() > 0), // [C01:guards-forwarded-one-to-one]
+        r matches Some(g) ==> g.0.id@ == old(self).iter.todo@.last() && final(self).iter.todo@ == old(self).iter.todo@.drop_last(), // [C01:guards-forwarded-one-to-one]
+        r is None ==> final(self).iter.todo == old(self).iter.todo,
 //@end
 
+/// `it` is the iterator a call of `iter()` on keyspace `ks` returned in world `o`, leaving world `n`
+pub open spec fn scan_of(it: Iter, o: RWorld, n: RWorld, ks: u64) -> bool { it.iter.ks@ == ks && it.iter.at@ == it.nonce.instant && reads_only_at(o, n, it.nonce.instant) && it.iter.todo@.len() < usize::MAX }
 // ---- plain keyspace reads: latest state
 //@extract src/keyspace/mod.rs :: Keyspace :: get world props=C01
 //@contract
@@ -80,11 +89,27 @@ pub open spec fn resolves<T: AsRef<Keyspace>>(t: &T, k: &Keyspace) -> bool { cal
     ensures reads_only_at(*old(w), *final(w), u64::MAX) && final(w).reads.len() == old(w).reads.len() + 1, // [C01:scan-sees-latest]
 //@end
 // ---- keyspace scans: a registered view at the visible seqno of their creation
+//@extract src/keyspace/mod.rs :: Keyspace :: len world desugar_for_plain=0 props=C01
+//@contract
+    requires ks_ok(self),
+    ensures
+        // len is the number of items of ONE scan of the keyspace (each counted once), unless loading a key fails
+        r is Ok ==> exists|it0: Iter| #[trigger] scan_of(it0, *old(w), *final(w), self.id) && r->Ok_0 == it0.iter.todo@.len(), // [C01:len-counts-every-item-of-one-scan-once]
+//@loop 0
+            invariant
+                scan_of(__fjx_src0, *old(w), *w, self.id),
+                0 <= count <= __fjx_src0.iter.todo@.len(), __fjx_it0.iter.todo@ =~= __fjx_src0.iter.todo@.skip(count as int),
+            ensures count == __fjx_src0.iter.todo@.len(),
+            decreases __fjx_it0.iter.todo@.len(),
+//@proof before @loop-start 0
+            proof { assert(__fjx_src0.iter.todo@.skip(count as int).skip(1) =~= __fjx_src0.iter.todo@.skip(count as int + 1)); }
+//@end
 //@extract src/keyspace/mod.rs :: Keyspace :: iter world props=C01+C05+C06
 //@contract
     requires ks_ok(self),
     ensures r.iter.at@ == r.nonce.instant && r.iter.ks@ == self.id, // [C05:scan-reads-at-its-own-instant] [C06:scan-reads-at-its-own-instant]
         reads_only_at(*old(w), *final(w), r.nonce.instant), // [C05:scan-reads-at-its-own-instant]
+        r.iter.todo@.len() < usize::MAX,
 //@end
 //@extract src/keyspace/mod.rs :: Keyspace :: range world props=C01+C05+C06
 //@contract
